@@ -40,15 +40,31 @@ Theorem C36_queue_close_closes_topics :
 Proof. exact queue_close_topics. Qed.
 Print Assumptions C36_queue_close_closes_topics.
 
-Theorem C36_close_call_closes_refuted : ~ close_call_closes_full.
-Proof. exact close_call_closes_refuted. Qed.
-Print Assumptions C36_close_call_closes_refuted.
+Theorem C36_close_call_closes :
+  forall cp tr s c s1, run (init cp) tr = Some s ->
+    (step s (ECloseNoop c) = Some s1
+     \/ exists s0 tr' s0', step s (ECloseBegin c) = Some s0 /\ run s0 tr' = Some s0' /\ step s0' (ECloseEnd c) = Some s1) ->
+    forall tr2 s2, run s1 tr2 = Some s2 ->
+      (forall o hi m r s3, step s2 (ESend c o hi m r) = Some s3 -> is_err r = true)
+      /\ (forall p o hi m, step s2 (EBlock p c o hi m) = None).
+Proof. exact close_call_closes_proof. Qed.
+Print Assumptions C36_close_call_closes.
 
-Theorem C36_close_call_closes_partial :
-  forall s c s0 s1, step s (ECloseBegin c) = Some s0 -> step s0 (ECloseEnd c) = Some s1 ->
-    c_closed (gc s1 c) = true.
-Proof. exact close_call_closes_partial. Qed.
-Print Assumptions C36_close_call_closes_partial.
+Theorem C36_close_call_sets_closed :
+  forall s c s1, close_returned s c s1 -> c_closed (gc s1 c) = true.
+Proof. exact close_returned_closed. Qed.
+Print Assumptions C36_close_call_sets_closed.
+
+Example C36_never_subscribed_client_closes :
+  exists s s1, run (init (mkCaps 2 2 5)) [ENew 0 0 1] = Some s
+    /\ c_pump (gc s 0) = PNone
+    /\ close_returned s 0 s1
+    /\ step s1 (ESend 0 0 true MForever SErrClient) = Some s1
+    /\ step s1 (ESend 0 0 true MForever SOk) = None
+    /\ step s1 (ERecvClosed 0) = Some s1
+    /\ (exists s2, step s1 (EWait 0 0 false WClient) = Some s2).
+Proof. exact never_subscribed_close_runs. Qed.
+Print Assumptions C36_never_subscribed_client_closes.
 
 Theorem C36_after_close_no_block_forever :
   forall cp tr s p pd, run (init cp) tr = Some s -> s_qclosed s = true ->
